@@ -14,6 +14,7 @@ Types are tuples:
   ("result", ok, err, spelling)    ok / err may be ("unit",)
   ("unit",) ("ordering",) ("write",)
   ("cb", [argtypes], ret, mutable) impl Fn(..) -> ret / impl FnMut
+  ("tr", Name, [(method, mutable_self, [argtypes], ret)])   impl Name, a `pub trait Name` declared in the owner's module
 lt is None (anonymous / elided), "static", or a lifetime name without the tick.
 """
 import random
@@ -166,6 +167,8 @@ def ty_sig(t):
         return "R%s<%s,%s>" % ("" if t[3] == "std" else "d", ty_sig(t[1]), ty_sig(t[2]))
     if k == "cb":
         return "cb(%s)->%s" % (",".join(ty_sig(a) for a in t[1]), ty_sig(t[2]))
+    if k == "tr":
+        return "tr{%s}" % ";".join("%s(%s)->%s" % ("mut" if mm else "ref", ",".join(ty_sig(a) for a in ma), ty_sig(mr)) for _, mm, ma, mr in t[2])
     return k
 
 
@@ -189,7 +192,7 @@ DEFAULT_PROFILE = dict(
     dip_spellings=True, result_dip=False, keyword_params=True, nested_structs=True,
     max_params=5, cb_struct_args=True, opt_slices=True, char=False, ordering=True,
     mut_self=True, opt_mut_oref=True, namespaces=False, byte_slices=True, renames=False,
-    strs_utf8=False, result_prim_err=True, opt_owned=False, write_prob=0.18,
+    strs_utf8=False, result_prim_err=True, opt_owned=False, write_prob=0.18, cb_opt=True, cb_slices=True, cb_strs=True, cb_aggr_ret=True, traits=False, trait_prob=0.5,
 )
 
 
@@ -203,6 +206,7 @@ class Gen:
         self.n_opaques, self.n_structs, self.n_enums, self.n_methods = n_opaques, n_structs, n_enums, n_methods
         self.name = name
         self.enums, self.structs, self.outstructs, self.opaques = [], [], [], []
+        self.traits = []
         self.counter = 0
 
     # ---- helpers
@@ -312,8 +316,55 @@ class Gen:
         return s
 
     # ---- method signatures
+    def cb_arg(self):
+        """Argument type of a callback or of a trait method (values Rust hands to foreign code)."""
+        p = self.p
+        cc = self.r.random()
+        if cc < 0.6:
+            return ("prim", self.pick(self.prims()))
+        if cc < 0.75 and self.enums:
+            return ("enum", self.pick(self.enums).name)
+        if cc < 0.9 and p["cb_struct_args"] and [s for s in self.structs if not s.lifetimes]:
+            return ("struct", self.pick([s for s in self.structs if not s.lifetimes]).name)
+        if p["cb_opt"] and p["option"] and self.chance(0.4):
+            return ("opt", ("prim", self.pick(self.prims())), "dip" if (p["dip_spellings"] and self.chance(0.3)) else "std")
+        if p["cb_slices"] and self.chance(0.5):
+            return ("slice", self.pick(SLICE_PRIMS[:-1]), False, None, "std")
+        if p["cb_strs"] and self.chance(0.6):
+            encs = ["ustr"] + (["u16"] if p["utf16"] else []) + (["utf8"] if p["utf8"] else [])
+            return ("str", self.pick(encs), None, "std")
+        return ("prim", self.pick(self.prims()))
+
+    def cb_ret(self):
+        p = self.p
+        if self.chance(0.3):
+            return ("unit",)
+        if p["cb_opt"] and p["option"] and self.chance(0.25):
+            return ("opt", ("prim", self.pick(self.prims())), "dip" if (p["dip_spellings"] and self.chance(0.3)) else "std")
+        if p["cb_aggr_ret"] and self.chance(0.25):
+            plain = [s for s in self.structs if not s.lifetimes]
+            if self.enums and (not plain or self.chance(0.5)):
+                return ("enum", self.pick(self.enums).name)
+            if plain:
+                return ("struct", self.pick(plain).name)
+        return ("prim", self.pick(self.prims()))
+
+    def gen_trait(self):
+        """("tr", Name, [(method, mutable_self, [argtypes], ret)]): a trait declared next to the method that consumes `impl Name`."""
+        meths = []
+        for j in range(self.ri(1, 4)):
+            meths.append(("tm%d" % j, self.chance(0.25), [self.cb_arg() for _ in range(self.ri(0, 3))], self.cb_ret()))
+        return ("tr", self.fresh("Tr"), meths)
+
     def param_type(self, ctx):
         p = self.p
+        if p["traits"] and not ctx.get("has_tr") and self.chance(p["trait_prob"]):
+            ctx["has_tr"] = True
+            if self.traits and self.chance(0.3):
+                return self.pick(self.traits)       # one trait consumed by several methods
+            t = self.gen_trait()
+            self.traits.append(t)
+            return t
         c = self.r.random()
         if c < 0.30:
             return ("prim", self.pick(self.prims()))
@@ -361,20 +412,8 @@ class Gen:
             return ("opt", inner, sp)
         if p["callbacks"] and not ctx.get("has_cb") and self.chance(0.6):
             ctx["has_cb"] = True
-            nargs = self.ri(0, 3)
-            args = []
-            for _ in range(nargs):
-                cc = self.r.random()
-                if cc < 0.6:
-                    args.append(("prim", self.pick(self.prims())))
-                elif cc < 0.75 and self.enums:
-                    args.append(("enum", self.pick(self.enums).name))
-                elif cc < 0.9 and p["cb_struct_args"] and [s for s in self.structs if not s.lifetimes]:
-                    args.append(("struct", self.pick([s for s in self.structs if not s.lifetimes]).name))
-                else:
-                    args.append(("prim", self.pick(self.prims())))
-            ret = ("unit",) if self.chance(0.3) else ("prim", self.pick(self.prims()))
-            return ("cb", args, ret, self.chance(0.4))
+            args = [self.cb_arg() for _ in range(self.ri(0, 3))]
+            return ("cb", args, self.cb_ret(), self.chance(0.4))
         return ("prim", self.pick(self.prims()))
 
     def simple_ret_payload(self, allow_box=True, allow_unit=False):
@@ -484,7 +523,7 @@ class Gen:
             choices.append("self_op")
         choices += ["param_op", "param_slice", "param_str", "static_str", "static_slice", "result_ref", "result_ref"]
         if self.p.get("opt_borrowed_params"):
-            choices += ["opt_param_slice", "opt_param_struct"]
+            choices += ["opt_param_slice"] + (["opt_param_struct"] if self.p["option"] else [])
         ch = self.pick(choices)
         lifetimes = ["a"]
         if ch == "self_op":
